@@ -54,6 +54,7 @@ func doDump(spec string) {
 	if len(p.Errors) > 0 {
 		fmt.Println(p.Errors)
 	}
+	px.Debug = true
 	closure := ""
 	if j := strings.Index(fn, "$"); j >= 0 {
 		closure = fn[j:]
@@ -71,7 +72,7 @@ func doDump(spec string) {
 			}
 		}
 	}
-	paths, in, err := px.Run(px.Config{Prog: p.SSA, MayPanic: func(ci *px.CallInfo) bool { return ci.IsDyn() }}, f)
+	paths, in, err := px.Run(px.Config{Prog: p.SSA, InlineGo: os.Getenv("GZV_INLINEGO") != "", MayPanic: func(ci *px.CallInfo) bool { return ci.IsDyn() }}, f)
 	fmt.Printf("%s: %d paths, err=%v stats=%+v\n", f, len(paths), err, in.Stats)
 	sort.SliceStable(paths, func(i, j int) bool { return len(paths[i].Events) < len(paths[j].Events) })
 	for k, pa := range paths {
